@@ -5,6 +5,7 @@ import (
 	"go/constant"
 	"go/token"
 	"go/types"
+	"os"
 	"strings"
 
 	"golang.org/x/tools/go/ssa"
@@ -494,4 +495,46 @@ func canonObject(v ssa.Value) ssa.Value {
 
 func sameObjectValue(a, b ssa.Value) bool {
 	return a == b || canonObject(a) == canonObject(b)
+}
+
+// closureOnlyCalledDirectly: fn is a function literal whose every closure value is used only as the callee of a call
+// (it is never stored, passed or returned), so its callers are exactly the static call sites.
+func closureOnlyCalledDirectly(fn *ssa.Function) bool {
+	par := fn.Parent()
+	if par == nil {
+		return false
+	}
+	found := false
+	for _, b := range par.Blocks {
+		for _, in := range b.Instrs {
+			mc, ok := in.(*ssa.MakeClosure)
+			if !ok || mc.Fn != ssa.Value(fn) {
+				continue
+			}
+			found = true
+			for _, ref := range *mc.Referrers() {
+				switch r := ref.(type) {
+				case *ssa.DebugRef:
+				case ssa.CallInstruction:
+					if r.Common().Value != ssa.Value(mc) {
+						return false
+					}
+					for _, a := range r.Common().Args {
+						if a == ssa.Value(mc) {
+							return false
+						}
+					}
+				default:
+					if os.Getenv("VERIF_DEBUG") != "" {
+						fmt.Fprintf(os.Stderr, "closureOnlyCalledDirectly(%s): used by %T %v\n", fn, ref, ref)
+					}
+					return false
+				}
+			}
+		}
+	}
+	if os.Getenv("VERIF_DEBUG") != "" {
+		fmt.Fprintf(os.Stderr, "closureOnlyCalledDirectly(%s): found=%v parent=%s\n", fn, found, par)
+	}
+	return found
 }
